@@ -1222,6 +1222,7 @@ func c20RaceBinary(c *h.Ctx) (string, string) {
 	cmd := exec.Command("go", "build", "-race", "-tags", "verif", "-o", out, "./cmd/drive")
 	cmd.Dir = filepath.Join(c.Verif, "harness")
 	cmd.Env = append(os.Environ(), "CGO_ENABLED=1")
+	os.Setenv("GORACE", "halt_on_error=1")
 	b, err := cmd.CombinedOutput()
 	if err != nil {
 		return "", "race build unavailable: " + lastLines(string(b), 5)
